@@ -179,7 +179,25 @@ def h_compose(cfg, V):
             ("beta_of_concatenation_is_composition", _same(b, cb, sm.exact))]
 
 
-HARNESSES = {"unitary": h_unitary, "zero": h_zero, "compose": h_compose}
+def h_rewinder(cfg, V):
+    """abrm(..., balanced=True) = the unbalanced simulation followed by the rewinder rotation; the rewinder is a gradient-only sample of
+    area -pi*x, i.e. what abrm itself computes for one zero-RF sample at position -x/2 (implicit gradient 2 pi)"""
+    _setup(cfg)
+    from sigpy.mri.rf import sim
+    ns, nt = cfg["ns"], cfg["nt"]
+    x = V.array("x", [ns], False)
+    rf = V.array("rf", [nt], True)
+    V.box(7)
+    a, b = sim.abrm(rf, x, False)
+    ab, bb = sim.abrm(rf, x, True)
+    ar, br = sim.abrm(np.zeros(1, dtype=complex), x * (Fraction(-1, 2) if V.symbolic else -0.5), False)
+    ca, cb = _compose(a, b, ar, br, "col")
+    return [("balanced_alpha_is_rewinder_after_unbalanced", _same(ab, ca, False)),
+            ("balanced_beta_is_rewinder_after_unbalanced", _same(bb, cb, False)),
+            ("rewinder_has_no_beta", O.eq(np.ravel(br), np.zeros(ns)))]
+
+
+HARNESSES = {"unitary": h_unitary, "zero": h_zero, "compose": h_compose, "rewinder": h_rewinder}
 
 
 def configs(tier, seed):
@@ -226,6 +244,8 @@ def configs(tier, seed):
         for name in ("abrm_nd", "abrm_hp", "blochsim", "abrm_ptx"):
             add("compose", sim=name, n1=n1, n2=n2, ns=1, nd=(2 if name in ("abrm_nd", "abrm_ptx") else 1), dom=(name == "abrm_hp"), cost=60 * (n1 + n2))
     add("compose", sim="abrm", n1=1, n2=1, ns=1, cost=100)
+    add("rewinder", sim="abrm", nt=1, ns=1, cost=100)
+    add("rewinder", sim="abrm", nt=2, ns=1, cost=200)
     if full:
         add("compose", sim="abrm", n1=2, n2=2, ns=1, cost=400)
         add("compose", sim="blochsim", n1=1, n2=1, ns=2, nd=2, cost=200)
